@@ -5,6 +5,7 @@ import (
 	"fmt"
 	"math/rand"
 	"sort"
+	"strings"
 	"sync"
 
 	"verifharness/bridge"
@@ -327,6 +328,11 @@ func (r *wrun) reopen(tag string) {
 		"rootOK": bytes.Equal(t2.Root(), root)})
 }
 
+// LongPad is a distinguishable filler that makes a value 40..130 bytes long.
+func LongPad(i int) string {
+	return "~" + strings.Repeat(string(rune('p'+i%7)), 36+(i*13)%90) + fmt.Sprint(i)
+}
+
 // wval: the weight of a value is the length of its part before '#', so that
 // weight is a function of the value while values can be made distinct per key.
 func wval(v string) (uint64, []byte) {
@@ -536,6 +542,9 @@ func GenWMPT(r *rand.Rand, mode string) WHist {
 		v := fmt.Sprintf("%s#%d.%d", b, k, uniq)
 		if again {
 			v = fmt.Sprintf("%s#%d", b, k)
+		} else if uniq%4 == 0 {
+			// long values: everything beyond the first few dozen bytes must be bound by the hashes just the same
+			v += LongPad(uniq)
 		}
 		lastVals[k] = append(lastVals[k], v)
 		return v
